@@ -16,6 +16,8 @@ TARGETS = [
     dict(cpu="320c30", hdr=0x76, segs={"code": (1, 4)}, max_addr={"code": 0xffffff}, style="c30"),
     dict(cpu="320c25", hdr=0x75, segs={"code": (1, 2)}, max_addr={"code": 0xffff}, style="c25"),
     dict(cpu="8086", hdr=0x42, segs={"code": (1, 1)}, max_addr={"code": 0xffff}, style="intel"),
+    # a target whose segments differ in granularity: CODE in 16-bit words, EEDATA in bytes
+    dict(cpu="atmega8", hdr=0x3b, segs={"code": (1, 2), "eedata": (10, 1)}, max_addr={"code": 0xfff, "eedata": 0x1ff}, style="avr"),
 ]
 
 LEN_POOL = [1, 2, 3, 5, 16, 100, 255, 256, 509, 510, 511, 512, 513, 514, 1023, 1024, 1025]
@@ -25,6 +27,14 @@ BIG_POOL = [30000, 32767, 32768, 65000, 65534, 65535]
 def data_stmt(rng, tgt, gran, nbytes_hint, budget):
     """returns (source line, bytes) for one data statement emitting ~nbytes_hint bytes"""
     style = tgt["style"]
+    if style == "avr":
+        if gran == 2:
+            n = max(1, min(max(1, nbytes_hint // 2), 30, budget // 2))
+            vals = [rng.randrange(0x10000) for _ in range(n)]
+            return "\tdata %s" % ",".join(map(str, vals)), b"".join(v.to_bytes(2, "little") for v in vals)
+        n = max(1, min(nbytes_hint, 24, budget))
+        vals = [rng.randrange(256) for _ in range(n)]
+        return "\tdb %s" % ",".join(map(str, vals)), bytes(vals)
     if gran == 1:
         n = max(1, min(nbytes_hint, budget))
         kind = rng.random()
@@ -66,7 +76,7 @@ def data_stmt(rng, tgt, gran, nbytes_hint, budget):
 
 
 def reserve_stmt(tgt, k):
-    return {"intel": "\tds %d", "moto8": "\tdfs %d", "moto68k": "\tds.b %d", "pic": "\tres %d", "c30": "\tbss %d", "c25": "\tbss %d"}[tgt["style"]] % k
+    return {"intel": "\tds %d", "moto8": "\tdfs %d", "moto68k": "\tds.b %d", "pic": "\tres %d", "c30": "\tbss %d", "c25": "\tbss %d", "avr": "\tres %d"}[tgt["style"]] % k
 
 
 def gen_program(rng, size_class):
